@@ -34,8 +34,8 @@ for d in sorted(glob.glob("/tmp/mut/C*/OUT")) + sorted(glob.glob("/tmp/mut2/C*/O
             "needs_to_manifest": NEEDS.get(sid, meta.get("needs_to_manifest", "see notes.md")),
             "confirmed_by": "tools/confirm_seed.py patch.diff demo.rs" + NEEDS.get(sid + ":confirm_args", "") + " (scratch worktree: demo passes unchanged; existing suite passes with the change; demo fails with the change)",
         })
-        runs = meta.get("check_runs", [])
-        for (pp, tier, cfg), r in sorted(res.get(sid, {}).items()):
+        runs = []
+        for (pp, tier, cfg), r in sorted(res.get(sid, {}).items(), key=lambda kv: (kv[0][0], kv[0][1], kv[0][2] or "")):
             entry = {"check": pp, "tier": tier, "configurations": cfg or "all", "verdict": r["verdict"], "first_signatures": r["sigs"][:3]}
             if entry not in runs:
                 runs.append(entry)
